@@ -5,5 +5,5 @@ tier="${1:-quick}"; jobs="${2:-20}"
 ./run.sh --build default purego race checkptr >/dev/null 2>&1
 out=$(mktemp -d)
 printf '%s\n' C01 C02 C03 C04 C05 C06 C07 C08 C09 C10 C11 C12 C13 C14 C15 C16 C17 C18 C19 C20 |
-  xargs -P "$jobs" -I{} bash -c "s=\$(date +%s); ./run.sh {} $tier > $out/{}.log 2>&1; rc=\$?; e=\$(date +%s); echo \"{} rc=\$rc wall=\$((e-s))s :: \$(grep -E '^C[0-9]+ ' $out/{}.log | tail -1)\"; grep -E '^(VIOLATION|INCONCLUSIVE|BUILD)' $out/{}.log | cut -c1-300"
+  xargs -P "$jobs" -I{} bash -c "s=\$(date +%s); ./run.sh {} $tier > $out/{}.log 2>&1; rc=\$?; e=\$(date +%s); echo \"{} rc=\$rc wall=\$((e-s))s :: \$(grep -aE '^C[0-9]+ ' $out/{}.log | tail -1)\"; grep -aE '^(VIOLATION|INCONCLUSIVE|BUILD)' $out/{}.log | cut -c1-300"
 rm -rf "$out"
